@@ -41,6 +41,19 @@ def streams(tier, seed):
                 b["coords"][k] = [str(last + 1 + i) for i in range(shape[k])]
                 out.append([a, b, {"op": "reorder", "obj": 1, "dims": list(perm)},
                             {"op": "concatenate", "obj": 0, "other": 1, "dim": dm}])
+    # a transform whose new dimension name is ALREADY in use (t2 -> f2 next to an f2, f2 -> t2 next to a t2), reached directly
+    # and through a history (transform, rename the remaining time axis, transform again): refused, or at least never an
+    # object with a repeated dimension name
+    from gen_proc import uniform_new, op_ft
+    for dims, dim, inv in ((["t2", "f2"], "t2", False), (["f2", "t2"], "t2", False), (["t2", "f2"], "f2", True), (["x", "f2", "t2"], "t2", False)):
+        shape = [4, 3, 2][: len(dims)]
+        a = uniform_new(rng, 0, dims, shape, dim, cplx=True, rand_values=True)
+        out.append([a, op_ft(a, dim, inverse=inv)])
+    a = uniform_new(rng, 0, ["t2", "t1"], [4, 4], "t2", cplx=True, rand_values=True)
+    a["coords"][1] = list(a["coords"][0])
+    f1 = op_ft(a, "t2", out=1)
+    out.append([a, f1, {"op": "rename", "obj": 1, "dim": "t1", "new": "t2"},
+                dict(op_ft(a, "t2", out=2), obj=1)])
     n = 80 if tier == "quick" else 1200
     for _ in range(n):
         out.append(history(rng, rng.randint(3, 14)))
